@@ -298,6 +298,35 @@ def run(chk):
                 e = 'same topology written differently has rf=%r grf=%r' % (rf, grf)
             if e:
                 fails.append((sa, sb, e))
+            elif rng.random() < 0.3:
+                # a tree object that has been printed and compared is edited (two leaves exchange their names) and used again: text and
+                # distances are those of the tree as it is NOW - the same as for a tree that is built, edited and used for the first time
+                try:
+                    A2 = Tree(sa)
+                    tipsA = [t_ for t_ in A.tips()]
+                    cand_ = [(x_, y_) for x_ in tipsA for y_ in tipsA if x_.Name < y_.Name and x_.Parent is not y_.Parent]
+                    if cand_:
+                        x_, y_ = rng.choice(cand_)
+                        nx, ny = x_.Name, y_.Name
+                        str(A)
+                        x_.Name, y_.Name = ny, nx
+                        x2, y2 = A2.getNodeMatchingName(nx), A2.getNodeMatchingName(ny)
+                        x2.Name, y2.Name = ny, nx
+                        chk.hist['tree object printed and compared, two leaves renamed, printed and compared again'] += 1
+                        r_hist, r_fresh = (A.get_distance(B, 'rf'), A.get_distance(B, 'grf'), B.get_distance(A, 'rf')), \
+                                          (A2.get_distance(B, 'rf'), A2.get_distance(B, 'grf'), B.get_distance(A2, 'rf'))
+                        if str(A) != str(A2):
+                            fails.append((sa, sb, 'after the leaves %r and %r of a printed tree exchanged their names str(tree) is %r, a tree built and edited the same way prints as %r'
+                                          % (nx, ny, str(A), str(A2))))
+                        elif r_hist != r_fresh:
+                            fails.append((sa, sb, 'after the leaves %r and %r of a compared tree exchanged their names its distances to the other tree are %r, for a tree built and edited the same way %r'
+                                          % (nx, ny, r_hist, r_fresh)))
+                        x_.Name, y_.Name = nx, ny
+                        str(A)
+                except ZeroDivisionError:
+                    pass
+                except Exception as ex:  # noqa
+                    fails.append((sa, sb, 'edit history on a tree object raised %s: %s' % (type(ex).__name__, str(ex)[:100])))
             # --- correspondence with the Lean model ---
             ids = {names[i]: i for i in range(k)}
             out = drv.ask('elems|' + ' '.join(tokens(ta)))
